@@ -266,6 +266,30 @@ func decisionTable(r *ev.Run) {
 				if si == 77 {
 					r.Sample(replay)
 				}
+				// ... and the NEXT request of the same Transport (same resolver, the answer still cached), made after the
+				// application took the HTTP/3 round-tripper away: it is decided on the records as the zone publishes them, not on
+				// what an earlier request made of them
+				if withH3 && wantH3 {
+					tr.HTTP3Transport = nil
+					mu.Lock()
+					dialed = nil
+					mu.Unlock()
+					req2, _ := http.NewRequest("GET", "https://a.example/", nil)
+					tr.RoundTrip(req2)
+					tr.HTTPTransport.CloseIdleConnections()
+					_, wantKept2 := model(set, false)
+					mu.Lock()
+					got2 := slices.Clone(dialed)
+					mu.Unlock()
+					sort.Ints(got2)
+					got2 = slices.Compact(got2)
+					want2 := slices.Clone(wantKept2)
+					sort.Ints(want2)
+					if !slices.Equal(got2, want2) && !(len(got2) == 0 && len(want2) == 0) && !(len(want2) == 0 && len(got2) == 1 && got2[0] == 443-1000) {
+						r.Violation("decision:later-request-sees-an-earlier-requests-filter", fmt.Sprintf("after a request that chose HTTP/3, the HTTP/3 round-tripper was removed and the same Transport asked again: dial targets came from records %v, the records as published give %v", got2, want2), replay)
+					}
+					r.Eval(fmt.Sprintf("%+v|%v|%v|then-tcp", set, h3mode, sharedTarget), fmt.Sprintf("then tcp: kept=%d", len(want2)))
+				}
 			}
 		}
 	})
